@@ -169,7 +169,7 @@ def run_query_property(prop, judge, imports, known_map, rule, assumptions, tier,
             if blind:
                 rep.count("model-blind:cte-alias-shared")
             if not wf:
-                rep.violation("the parser's AST violates the walk order table (wf_order) — the tie to walk.go is broken", replay, no_input=True)
+                rep.violation("the parser's AST violates the walk order table (wf_order) - the tie to walk.go is broken - or, in the C03 check, the shape the no-panic theorems assume (Model/Shape.v shape_ok, inserts_ok)", replay, no_input=True)
                 continue
             reparse = (not accepted) and any("edited query syntax is invalid" in e.get("msg", "") for e in r.get("errs", []))
             if extra is not None:
